@@ -25,6 +25,7 @@ func runC16(c *Check) {
 	c.noGlobalLockAcrossFetch()
 	c.fetchFilesExclusive()
 	c.combinedSourcesFresh()
+	c.readAfterSlotCleared()
 }
 
 // combineNonNil (R7): a profile handed to combineProfiles is known to be non-nil at the
